@@ -435,5 +435,118 @@ func runC07(r *run) {
 				Expected: fmt.Sprint(want), Actual: fmt.Sprint(got)})
 		}
 	}
+	// groups nested in groups (built as Attr lists and from free-form arguments), several records through the
+	// same logger: every level of nesting has its own members, in ascending key order, each exactly once
+	nn := 120
+	if r.tier == "thorough" {
+		nn = 2500
+	}
+	type node struct {
+		key  string
+		val  int
+		kids []*node // nil = scalar
+	}
+	var build func(depth int) []*node
+	build = func(depth int) []*node {
+		var ms []*node
+		used := map[string]bool{}
+		for j := 1 + g.intn(6); j > 0; j-- {
+			k := g.pick(c07Keys)
+			if used[k] {
+				continue
+			}
+			used[k] = true
+			ms = append(ms, &node{key: k, val: next()})
+		}
+		if depth > 0 {
+			for j := g.intn(3); j > 0; j-- {
+				k := []string{"a-inner", "m-inner", "z-inner", "0grp", "kk"}[g.intn(5)]
+				if used[k] {
+					continue
+				}
+				used[k] = true
+				kids := build(depth - 1)
+				if kids == nil {
+					kids = []*node{}
+				}
+				ms = append(ms, &node{key: k, kids: kids})
+			}
+		}
+		for j := len(ms) - 1; j > 0; j-- { // shuffle
+			k := g.intn(j + 1)
+			ms[j], ms[k] = ms[k], ms[j]
+		}
+		return ms
+	}
+	var asAttrs func(ms []*node, free bool) []any
+	asAttrs = func(ms []*node, free bool) []any {
+		var out []any
+		for _, m := range ms {
+			switch {
+			case m.kids != nil && free:
+				out = append(out, slog.Group(m.key, asAttrs(m.kids, free)...))
+			case m.kids != nil:
+				var as []slog.Attr
+				for _, a := range asAttrs(m.kids, free) {
+					as = append(as, a.(slog.Attr))
+				}
+				out = append(out, slog.NewGroupedAttr(m.key, as...))
+			case free:
+				out = append(out, m.key, m.val)
+			default:
+				out = append(out, slog.NewAttr(m.key, m.val))
+			}
+		}
+		return out
+	}
+	var flat func(prefix string, ms []*node, out *[]string)
+	flat = func(prefix string, ms []*node, out *[]string) {
+		sorted := append([]*node{}, ms...)
+		sort.Slice(sorted, func(i, j int) bool { return sorted[i].key < sorted[j].key })
+		for _, m := range sorted {
+			if m.kids != nil {
+				flat(prefix+m.key+".", m.kids, out)
+			} else {
+				*out = append(*out, fmt.Sprintf("%s%s=%d", prefix, m.key, m.val))
+			}
+		}
+	}
+	for i := 0; i < nn; i++ {
+		slog.SetFlags(baseFlags)
+		rec := &recorder{}
+		format := []string{"logfmt", "color"}[g.intn(2)]
+		l := slog.New(fmt.Sprintf("c07n-%d", i)).SetWriter(rec).SetErrorWriter(rec).SetLevel(slog.InfoLevel)
+		l.SetColorMode(format == "color")
+		free := g.chance(1, 2)
+		for round := 0; round < 3; round++ {
+			tree := build(2)
+			var arg any
+			if free {
+				arg = slog.Group("grp", asAttrs(tree, true)...)
+			} else {
+				var as []slog.Attr
+				for _, a := range asAttrs(tree, false) {
+					as = append(as, a.(slog.Attr))
+				}
+				arg = slog.NewGroupedAttr("grp", as...)
+			}
+			l.Info("nested-group-probe", arg)
+			w := rec.take()
+			var want, got []string
+			flat("", tree, &want)
+			if len(w) == 1 {
+				text := string(reAnsi.ReplaceAll(w[0], nil))
+				for _, mm := range regexp.MustCompile(`grp\.([^= ]+)=(\d+)`).FindAllStringSubmatch(text, -1) {
+					got = append(got, mm[1]+"="+mm[2])
+				}
+			}
+			r.seen(fmt.Sprintf("nested|%s|%v|%d|%d", format, free, round, len(want)/4))
+			if fmt.Sprint(got) != fmt.Sprint(want) {
+				r.violate(violation{What: "the members of nested groups differ from the reference (each group its own members, ascending key order at every level)",
+					Input:    map[string]any{"format": format, "built_from_free_form_arguments": free, "record_number_through_this_logger": round + 1, "members_in_call_order": fmt.Sprint(want)},
+					Expected: fmt.Sprint(want), Actual: fmt.Sprint(got)})
+			}
+		}
+	}
 	slog.VerifResetGlobals()
 }
